@@ -156,6 +156,7 @@ func runC17(r *Report) {
 	c17Owners(r, lt)
 	c17Loops(r, lt)
 	c17Deletion(r)
+	c17QueuedPeers(r)
 }
 
 // checkChanOp classifies one channel operation under rule R1.
@@ -854,4 +855,164 @@ func exitTimelineD(f *ssa.Function, depth int) []exitItem {
 		out = append(out, exitTimelineD(df, depth+1)...)
 	}
 	return out
+}
+
+// ---------- R4 (continued): a peer that was queued but never started ----------
+
+// c17QueuedPeers: a TorAddPeer event owns a connection. (a) when the loop exits, the events still in the queue are
+// drained after Done is closed and the peer of every TorAddPeer among them is closed; (b) NewPeer, having queued the
+// event, tests Done again before it reports success — the loop may have exited (and drained) in between.
+func c17QueuedPeers(r *Report) {
+	p := r.P
+	run := p.Func("tor", "Torrent.run")
+	np := p.Func("tor", "Torrent.NewPeer")
+	evF := p.Field("tor", "Torrent", "Event")
+	doneF := p.Field("tor", "Torrent", "Done")
+	connF := p.Field("peer", "Peer", "conn")
+	if !r.Anchor("R4", "tor.(*Torrent).run", run != nil) || !r.Anchor("R4", "tor.(*Torrent).NewPeer", np != nil) ||
+		!r.Anchor("R4", "tor.Torrent.Event/Done", evF != nil && doneF != nil) || !r.Anchor("R4", "peer.Peer.conn", connF != nil) {
+		return
+	}
+	// closesConn: a function of package peer that closes the peer's connection
+	closesConn := func(f *ssa.Function) bool {
+		if f == nil || f.Blocks == nil || relPkg(f) != "peer" {
+			return false
+		}
+		return anyInstr(f, func(i ssa.Instruction) bool {
+			c, ok := i.(*ssa.Call)
+			if !ok || !c.Call.IsInvoke() || c.Call.Method.Name() != "Close" {
+				return false
+			}
+			fv, _ := loadedField(c.Call.Value)
+			return fv == connF
+		}) != nil
+	}
+	// drains: the function receives from Torrent.Event without blocking, recognises TorAddPeer and closes its peer
+	var drains func(f *ssa.Function, d int) ssa.Instruction
+	drains = func(f *ssa.Function, d int) ssa.Instruction {
+		if f == nil || f.Blocks == nil || d > 2 {
+			return nil
+		}
+		var recv ssa.Instruction
+		hasAssert, hasClose := false, false
+		allInstrs(f, func(i ssa.Instruction) {
+			switch x := i.(type) {
+			case *ssa.Select:
+				for _, st := range x.States {
+					if st.Dir == types.RecvOnly && chanSourceOf(st.Chan).Field == evF && !x.Blocking {
+						recv = i
+					}
+				}
+			case *ssa.TypeAssert:
+				if typeShort(x.AssertedType) == "peer.TorAddPeer" {
+					hasAssert = true
+				}
+			case *ssa.Call:
+				if closesConn(x.Call.StaticCallee()) {
+					hasClose = true
+				}
+			}
+		})
+		if recv != nil && hasAssert && hasClose {
+			return recv
+		}
+		var via ssa.Instruction
+		allInstrs(f, func(i ssa.Instruction) {
+			if c, ok := i.(*ssa.Call); ok && via == nil {
+				if h := c.Call.StaticCallee(); h != nil && relPkg(h) == "tor" && h != f && drains(h, d+1) != nil {
+					via = i
+				}
+			}
+		})
+		return via
+	}
+	r.Fn(run)
+	var site ssa.Instruction
+	var siteDefer, closeDefer *ssa.Defer
+	var closeInstr ssa.Instruction
+	var defers []*ssa.Defer
+	allInstrs(run, func(i ssa.Instruction) {
+		if d, ok := i.(*ssa.Defer); ok {
+			defers = append(defers, d)
+		}
+	})
+	for _, d := range defers {
+		df := deferredFunc(d)
+		if df == nil || df.Blocks == nil {
+			if bi, ok := d.Call.Value.(*ssa.Builtin); ok && bi.Name() == "close" && chanSourceOf(d.Call.Args[0]).Field == doneF {
+				closeDefer, closeInstr = d, d
+			}
+			continue
+		}
+		if s := drains(df, 0); s != nil {
+			site, siteDefer = s, d
+		}
+		for _, c := range closesIn(df) {
+			if chanSourceOf(c.Call.Args[0]).Field == doneF {
+				closeDefer, closeInstr = d, c
+			}
+		}
+	}
+	if site == nil {
+		r.Fail("R4", "Torrent.run/exit-drains-queued-peers", run.Pos(), "no deferred function of the torrent loop empties the event queue and closes the peers of the TorAddPeer events left in it: a connection handed to the torrent while its deletion was already queued stays open after the deletion completes")
+	} else {
+		after := false
+		switch {
+		case closeDefer == nil:
+		case closeDefer == siteDefer:
+			if _, isDefer := closeInstr.(*ssa.Defer); !isDefer && closeInstr.Parent() == site.Parent() {
+				after = instrDominates(closeInstr, site)
+			}
+		default:
+			// defers run in reverse registration order: the drain must be registered before the close
+			after = instrDominates(siteDefer, closeDefer)
+		}
+		r.Check(after, "R4", "Torrent.run/exit-drains-queued-peers", site.Pos(), "after Done is closed the loop's exit empties the queue and closes the peers that were never started",
+			"the event queue is drained before Done is closed (or the order cannot be established): a NewPeer that queues its event between the drain and the close is told nothing and its connection stays open")
+	}
+	// (b) NewPeer
+	r.Fn(np)
+	n := 0
+	allInstrs(np, func(i ssa.Instruction) {
+		sel, ok := i.(*ssa.Select)
+		if !ok {
+			return
+		}
+		for k, st := range sel.States {
+			if st.Dir != types.SendOnly || chanSourceOf(st.Chan).Field != evF {
+				continue
+			}
+			mi, isMI := st.Send.(*ssa.MakeInterface)
+			if !isMI || typeShort(mi.X.Type()) != "peer.TorAddPeer" {
+				continue
+			}
+			n++
+			blk := selectCaseBlock(sel, k)
+			if blk == nil {
+				r.Undecided("R4", "NewPeer/recheck-Done-after-queueing", sel.Pos(), "the block of the send case cannot be identified")
+				continue
+			}
+			isNilRet := func(in ssa.Instruction) bool {
+				ret, ok := in.(*ssa.Return)
+				return ok && len(ret.Results) > 0 && isNilConst(ret.Results[len(ret.Results)-1])
+			}
+			testsDone := func(in ssa.Instruction) bool {
+				switch x := in.(type) {
+				case *ssa.Select:
+					for _, s2 := range x.States {
+						if s2.Dir == types.RecvOnly && chanSourceOf(s2.Chan).Field == doneF {
+							return true
+						}
+					}
+				case *ssa.UnOp:
+					return x.Op == token.ARROW && chanSourceOf(x.X).Field == doneF
+				}
+				return false
+			}
+			miss, reached := pathsMissingAt(blk, 0, -1, isNilRet, nil, []edgeReq{{Name: "Done re-tested", Instr: testsDone}}, nil)
+			r.Check(reached > 0 && len(miss) == 0, "R4", "NewPeer/recheck-Done-after-queueing", sel.Pos(), "success is reported only after Done was tested again once the event is queued",
+				"NewPeer reports success as soon as its event is queued: if the loop has exited meanwhile (Done closed and the queue drained, or the send and Done both ready) nobody will ever start or close the peer and its connection stays open")
+		}
+	})
+	r.Sentinel("R4.NewPeer", n, 1)
 }
